@@ -149,7 +149,7 @@ def rand_expr(rng, depth, spline_slots=(), maxpos=2, maxder=3):
     return E('Neg', sub())
 
 
-def catalogue(spl=None):
+def catalogue(spl=None, spl2=None):
     """fixed catalogue covering every overload and both scalar kinds"""
     X1, D1, D2, I = E('Pos', 1), E('Der', 1), E('Der', 2), E('Id')
     f = Sc('F', Fr(3, 2))
@@ -170,12 +170,19 @@ def catalogue(spl=None):
         E('SMulL', f, E('SubS', X1, g)), E('SMulL', g, E('SSub', f, X1)),
         E('Mul', E('Mul', D1, X1), E('Mul', X1, D1)),
         E('DivS', E('Sub', E('Mul', X1, D2), E('SMulL', i2, D1)), Sc('F', Fr(5, 3))),
+        # both operands of a sum have the SAME C++ type but different state (a type-level shortcut would be wrong)
+        E('Add', E('SMulL', f, D1), E('SMulL', g, D1)), E('Sub', E('SMulL', i2, X1), E('SMulL', im, X1)),
+        E('SubS', E('SMulL', Sc('F', Fr(3)), I), Sc('F', Fr(1))), E('AddS', E('SMulR', I, i2), Sc('I', 5)),
+        E('Sub', E('DivS', D1, i2), E('DivS', D1, Sc('I', 3))),
     ]
     if spl is not None:
         V = E('Spl', spl)
         cat += [V, E('Mul', V, D1), E('Mul', D1, V), E('Add', V, X1), E('Sub', X1, V),
                 E('SMulL', i2, V), E('DivS', V, f), E('Neg', V), E('Mul', V, V),
                 E('Add', E('Mul', X1, V), E('SMulL', g, D2))]
+        if spl2 is not None:
+            Wf = E('Spl', spl2)      # a second factor of the same order: same C++ type, different spline
+            cat += [E('Add', V, Wf), E('Sub', V, Wf), E('Mul', V, Wf), E('Sub', E('Mul', V, D1), E('Mul', Wf, D1))]
     return cat
 
 
@@ -505,17 +512,20 @@ def gen_C05(seed, tier):
             cases.append(c)
     # (b) spline-factor expressions: every placement of factor window vs operand window
     fo, oo = (1, 1) if tier == 'quick' else (2, 1)
-    fcat = catalogue(50)[len(cat):]
+    fcat = catalogue(50, 51)[len(cat):]
     for wi, wv in enumerate(ws):
         c = Case(f"C05b_{wi}")
         c.grid_new(0, pts)
         c.grid_new(1, pts)
         c.sup_new(1050, 1, wv[0], wv[1])
         c.spl_new(50, fo, 1050, rand_coefs(rng, fo, nint(wv)))
+        wv2 = ws[(wi * 7 + 3) % len(ws)]
+        c.sup_new(1051, 0, wv2[0], wv2[1])
+        c.spl_new(51, fo, 1051, rand_coefs(rng, fo, nint(wv2)))
         for wj, wa in enumerate(ws):
             c.sup_new(1060, 0, wa[0], wa[1])
             c.spl_new(60, oo, 1060, rand_coefs(rng, oo, nint(wa)))
-            for ei, e in enumerate(fcat if tier != 'quick' else [fcat[0], fcat[(wi + wj) % len(fcat)]]):
+            for ei, e in enumerate(fcat if tier != 'quick' else [fcat[0], fcat[(wi + wj) % len(fcat)], fcat[-1 - (wi + wj) % 4]]):
                 c.apply(100 + fcat.index(e), e, 60); c.show(100 + fcat.index(e))
         cases.append(c)
     return cases
